@@ -118,20 +118,21 @@ def run_engine_property(ctx, pid, oracles, feat=None, faults=0.25, n=None, nstep
         if len(samples) < 3 and prs:
             samples.append({'scenario': h.sid, 'manifest': h.g.manifest()[:400], 'steps': [s.line[:120] for s in h.steps[:6]],
                             'first_build_started': prs[0][1].started})
-    # trace acceptance by the extracted plan/build-loop model (dyndep-free scenarios): refinement by state comparison
+    # trace acceptance by the extracted plan/build-loop model: refinement by state comparison.  Scenarios WITH dyndep
+    # are included: files loaded by the scan are part of the snapshot, loads during the build are events of the model
     accept = {}
     if plan_accept and ctx.model:
         import planmodel
         os.environ['PLAN_MODEL_RUN'] = os.path.join(os.path.dirname(ctx.model), 'plan_run')
         planmodel._BIN = None
-        nodd = [h for h in hists if not h.g0.dd_info and not any(getattr(s_, 'g', None) is not None and s_.g.dd_info for s_ in h.steps)]
         crashed = {hh.sid for hh, _, _ in getattr(ec.run_hists, 'crashes', [])}
-        nodd = [h for h in nodd if h.sid not in crashed][:plan_accept]
-        mism, stats = planmodel.check_hists(nodd, out)
+        cand = [h for h in hists if h.sid not in crashed][:plan_accept]
+        mism, stats = planmodel.check_hists(cand, out)
         accept = dict(stats)
+        accept['scenarios-with-dyndep'] = len([h for h in cand if h.g0.dd_info or any(getattr(s_, 'g', None) is not None and s_.g.dd_info for s_ in h.steps)])
         for sid, v in list(mism.items())[:5]:
             ctx.corr_broken.append('plan model rejects ninja\'s trace of scenario %s: %s' % (sid, '; '.join(v[:2])))
-            hh = [h for h in nodd if h.sid == sid]
+            hh = [h for h in cand if h.sid == sid]
             if hh: ctx.replay_file('plan-mismatch', hh[0].text())
     # correspondence of the extracted dependency-scan model with ninja's scan (dyndep-free scenarios)
     scanst = {}
